@@ -381,6 +381,19 @@ def max_int_bits(module):
     return n
 
 
+def engine_width(module):
+    """engine bit-vector width that holds every intermediate of the generated code: operands need n (+ sign) bits,
+    sums n + 1, the unreduced results of * << rol ror up to 2n bits (a too small width is an EngineBound error, exit 3)"""
+    w = max_int_bits(module) + 8
+    for f in module.functions:
+        for b in f:
+            for i in b:
+                if type(i).__name__ == "Binop" and i.operation in ("*", "<<", "rol", "ror"):
+                    n = i.ty.bits if getattr(i.ty, "is_integer", False) else PTR_BITS
+                    w = max(w, 2 * n + 8)
+    return w
+
+
 class GeneratedStepLimit(Exception):
     """the generated code executed far more lines than the reference execution has instructions"""
 
@@ -481,21 +494,18 @@ class Ir2PyHarness(Harness):
         self.spec = spec
         self.params = dict(spec=spec)
         self.name = "ir2py[" + ",".join(f"{k}={v}" for k, v in spec.items()) + "]"
-        bits = spec.get("W")
-        if not bits:
-            bits = 64 if any(str(spec.get(k, "")).endswith("64") for k in ("ty", "src", "dst", "ty2")) else 32
-            if spec["kind"] == "c":
-                m = build_module(spec)[0]
-                bits = max_int_bits(m)
-                if any(type(x).__name__ == "Binop" and x.operation in ("/", "%") and irsem.is_signed(x.ty)
-                       for f in m.functions for b in f for x in b):
-                    self.prove_timeout_ms = 4000
-        self.W = 2 * bits + 8
-        if spec.get("op") in ("/", "%"):
+        m = build_module(spec)[0]
+        self.W = engine_width(m)
+        if any(type(x).__name__ == "Binop" and x.operation in ("/", "%") and irsem.is_signed(x.ty)
+               for f in m.functions for b in f for x in b):
             self.prove_timeout_ms = 4000     # sdiv/srem against |a| udiv |b|: z3 gives up, cvc5 (bit-vectors as integers) decides
 
     # -- inputs -------------------------------------------------------------------------------------------
     def inputs(self, mk):
+        if core.ENG is not None and hasattr(core.ENG, "lemma"):
+            # the engine's redundant division lemmas (valid facts, meant as solver hints) put a bit-blasted 64-bit
+            # divider into every feasibility query of this harness; not recording them changes no verdict
+            core.ENG.lemma = lambda c: None
         module, entry, ranges = build_module(self.spec)
         f = find_function(module, entry)
         raw = self.spec["kind"] != "c"
